@@ -3,7 +3,9 @@ package acc
 import (
 	"bufio"
 	"bytes"
+	crand "crypto/rand"
 	"encoding/json"
+	"errors"
 	"fmt"
 	"io"
 	"io/ioutil"
@@ -19,6 +21,7 @@ import (
 	"time"
 
 	"github.com/golang-jwt/jwt/v4"
+	"github.com/google/uuid"
 	"github.com/gorilla/websocket"
 	"github.com/practable/relay/internal/access"
 	"github.com/practable/relay/internal/crossbar"
@@ -329,6 +332,16 @@ func (r *Runner) listed(ua int) (*Report, bool) {
 	return nil, true
 }
 
+// failOnce is a random source whose first read fails; later reads come from crypto/rand.
+type failOnce struct{ done int32 }
+
+func (f *failOnce) Read(p []byte) (int, error) {
+	if atomic.CompareAndSwapInt32(&f.done, 0, 1) {
+		return 0, errors.New("entropy source unavailable")
+	}
+	return crand.Read(p)
+}
+
 // Tick handling in real mode: the op list gets an explicit setnow whenever the wall-clock second differs
 // from the one the model currently believes; an op during which the second changes marks the case.
 func (r *Runner) preOp(ops *[]Op) int64 {
@@ -385,6 +398,11 @@ func (r *Runner) Run(c *Case) {
 		idx[i] = len(ops)
 		var out Out
 		switch o.K {
+		case "faultreq":
+			// the random source (uuid's reader) fails for exactly one read while this request is served
+			uuid.SetRand(&failOnce{})
+			out = r.doReq(i, o.Req)
+			uuid.SetRand(nil)
 		case "req":
 			out = r.doReq(i, o.Req)
 			if o.Req.SettleMs > 0 {
@@ -447,10 +465,13 @@ func (r *Runner) Close() {
 		c.Close()
 		delete(r.conns, ua)
 	}
-	if r.E.Mode == "real" && r.joins > 0 {
+	if r.E.Mode == "real" && r.joins > 0 && !r.Hung {
 		for i := 0; i < 100; i++ {
 			reps, ok := r.fetchStatus()
 			if ok && len(reps) == 0 {
+				return
+			}
+			if !ok && i >= 2 { // /status itself does not answer: nothing to wait for
 				return
 			}
 			time.Sleep(10 * time.Millisecond)
@@ -572,6 +593,15 @@ func (r *Runner) doWs(w *Ws) (int64, Out) {
 		r.random++
 		code = fmt.Sprintf("0badc0de-0000-4000-8000-%012d", r.random)
 		codeN = 1000000 + r.random
+	case "literal": // a string nobody was issued but anybody can guess
+		code = w.Code.Lit
+		r.random++
+		codeN = 2000000 + r.random
+		for i, c := range r.issued { // ... unless the server did hand it out
+			if c == code {
+				codeN = int64(i)
+			}
+		}
 	case "op":
 		if c, ok := r.byOp[w.Code.Op]; ok {
 			code = c
@@ -588,7 +618,12 @@ func (r *Runner) doWs(w *Ws) (int64, Out) {
 	}
 	hdr := http.Header{}
 	hdr.Set("User-Agent", r.uaString(w.UA))
-	d := websocket.Dialer{HandshakeTimeout: 3 * time.Second}
+	for k, vs := range w.Headers {
+		for _, v := range vs {
+			hdr.Add(k, v)
+		}
+	}
+	d := websocket.Dialer{HandshakeTimeout: 3 * time.Second, EnableCompression: w.Deflate}
 	conn, resp, err := d.Dial(u, hdr)
 	out := Out{K: "ws"}
 	if err != nil {
@@ -630,6 +665,9 @@ func (r *Runner) doLeave(ua int) Out {
 	for i := 0; i < 100; i++ {
 		rep, ok := r.listed(ua)
 		if ok && rep == nil {
+			break
+		}
+		if !ok && i >= 2 {
 			break
 		}
 		time.Sleep(10 * time.Millisecond)
